@@ -62,6 +62,21 @@ OPS = [
     (r"\bSome\((\w+)\)", r"None::<_>.or(Some(\1)).filter(|_| false)", "some->none"),
     (r"\bMASK\b", "u64::MAX", "MASK->MAX"),
 ]
+# second operator family (campaign 2): ranges, loop control, statement deletion, method swaps
+OPS2 = [
+    (r"\.\.=", "..", "incl->excl"), (r"(?<=[\w)])\.\.(?=[\w(])", "..=", "excl->incl"), (r"\.rev\(\)", "", "rev->"),
+    (r"\bbreak\b", "continue", "break->continue"), (r"\bcontinue\b", "break", "continue->break"),
+    (r"\bwrapping_mul\b", "wrapping_add", "wmul->wadd"), (r"\bsaturating_(add|sub|mul|shl)\b", r"wrapping_\1", "sat->wrap"),
+    (r"\bmin\(", "max(", "min->max"), (r"\bmax\(", "min(", "max->min"),
+    (r"\bleading_zeros\b", "trailing_zeros", "lz->tz"), (r"\btrailing_zeros\b", "leading_zeros", "tz->lz"),
+    (r"\bcount_ones\b", "count_zeros", "ones->zeros"), (r"\boverflowing_add\b", "overflowing_sub", "oadd->osub"),
+    (r"\boverflowing_sub\b", "overflowing_add", "osub->oadd"), (r"\bchecked_add\b", "checked_sub", "cadd->csub"),
+    (r"^(\s*)([a-z_][\w\.\[\]]*\s*(\+|-|\||&|\^|<<|>>)?=\s[^=].*;)\s*$", r"\1{ let _ = 0; }", "delete-assign"),
+    (r"\bcarry\b", "0", "carry->0"), (r"\bborrow\b", "0", "borrow->0"), (r"\.0\b", ".1", "t0->t1"), (r"\bas u64\b", "as u32 as u64", "trunc32"),
+    (r"\bLIMBS - 1\b", "0", "top->0"), (r" % 64\b", " % 32", "%64->%32"), (r" / 64\b", " / 32", "/64->/32"), (r" / 8\b", " / 4", "/8->/4"),
+    (r"\bu64::MAX\b", "(u64::MAX - 1)", "MAX->MAX-1"), (r"\bSelf::MAX\b", "Self::ZERO", "MAX->ZERO"), (r"\bSelf::ZERO\b", "Self::ONE", "ZERO->ONE"),
+    (r"\bis_some\(\)", "is_none()", "some->none?"), (r"\bok\(\)\?", "ok().or(None)?", "noop"),
+]
 
 
 def sh(cmd, cwd=None, env=None, timeout=None):
@@ -103,7 +118,8 @@ def code_lines(path):
     return lines, out
 
 
-def candidates(files, rng):
+def candidates(files, rng, ops=None):
+    ops = ops or OPS
     cands = []
     for f in files:
         p = os.path.join(SCR, "repo", f)
@@ -112,17 +128,19 @@ def candidates(files, rng):
         lines, cl = code_lines(p)
         for i, l in cl:
             code = l.split("//")[0]
-            for rx, rep, name in OPS:
+            for rx, rep, name in ops:
+                if name == "noop":
+                    continue
                 for m in re.finditer(rx, code):
                     cands.append((f, i, m.start(), m.end(), rx, rep, name))
     rng.shuffle(cands)
     return cands
 
 
-def run(n, seed, files, suite):
+def run(n, seed, files, suite, family=1):
     rng = random.Random(seed)
     files = files or sorted(MAP)
-    cands = candidates(files, rng)
+    cands = candidates(files, rng, OPS if family == 1 else OPS2)
     # spread over files: round-robin by file
     byfile = {}
     for c in cands:
@@ -209,6 +227,6 @@ if __name__ == "__main__":
         n = int(a[a.index("--n") + 1]) if "--n" in a else 50
         seed = int(a[a.index("--seed") + 1]) if "--seed" in a else 1
         files = a[a.index("--files") + 1].split(",") if "--files" in a else None
-        run(n, seed, files, "--suite" in a)
+        run(n, seed, files, "--suite" in a, family=2 if "--ops2" in a else 1)
     elif a[0] == "report":
         report()
